@@ -22,7 +22,7 @@ MAX_BAD_PER_SHARD = 6
 
 
 class Case:
-    def __init__(self, name, fn, timeout=10, old_timeout=20, shards=1, validate=2, cert_first=False, try_old=True, search=40, feas_timeout_ms=2000, pc_first=False, expect_obligations=True, deriv=False, val_tol=None):
+    def __init__(self, name, fn, timeout=10, old_timeout=20, shards=1, validate=2, cert_first=False, try_old=True, search=40, feas_timeout_ms=2000, pc_first=False, expect_obligations=True, deriv=False, val_tol=None, shadow=True):
         self.name = name
         self.fn = fn
         self.timeout = timeout
@@ -36,6 +36,7 @@ class Case:
         self.pc_first = pc_first
         self.expect_obligations = expect_obligations
         self.val_tol = val_tol
+        self.shadow = shadow
 
 
 _G = {}
@@ -242,6 +243,8 @@ def _validate(modname, tier, case, body, seed, funcs):
         val["reached_checks"] = max(val["reached_checks"], r["n_checks"])
         for f in r["failures"]:
             val["concrete_failures"].append({"inputs": r["inputs"], "failure": f})
+        if not case.shadow:
+            continue  # IEEE kernels: the float64 run is the reachability witness; there is no real-valued term to compare
         shadow = dict(r["inputs"])
         ex = Explorer()
         prof = _profile_functions(funcs)
